@@ -45,7 +45,7 @@ type Prog struct {
 	// Callers maps a repository function object to the call sites that statically
 	// resolve to it (direct calls, method calls on concrete receivers, and interface
 	// calls resolved to every repository implementation).
-	callers map[*types.Func][]CallSite
+	callers   map[*types.Func][]CallSite
 	ifaceImpl map[*types.Func][]*types.Func
 }
 
@@ -71,6 +71,14 @@ func Load() (*Prog, error) { return LoadDir(RepoDir()) }
 // LoadDir is Load for an explicit directory (used by the sensitivity run on scratch
 // copies of the repository).
 func LoadDir(dir string) (*Prog, error) {
+	p, err := loadDir(dir, nil)
+	if err != nil {
+		return nil, err
+	}
+	return normalise(p, func(overlay map[string][]byte) (*Prog, error) { return loadDir(dir, overlay) }), nil
+}
+
+func loadDir(dir string, overlay map[string][]byte) (*Prog, error) {
 	fset := token.NewFileSet()
 	env := append(os.Environ(),
 		"GOFLAGS=-mod=mod", "GOPROXY=off", "GOSUMDB=off", "GOTOOLCHAIN=local", "GOWORK=off")
@@ -78,10 +86,11 @@ func LoadDir(dir string) (*Prog, error) {
 		Mode: packages.NeedName | packages.NeedFiles | packages.NeedCompiledGoFiles |
 			packages.NeedImports | packages.NeedDeps | packages.NeedTypes |
 			packages.NeedTypesSizes | packages.NeedSyntax | packages.NeedTypesInfo,
-		Dir:   dir,
-		Fset:  fset,
-		Env:   env,
-		Tests: false,
+		Dir:     dir,
+		Fset:    fset,
+		Env:     env,
+		Tests:   false,
+		Overlay: overlay,
 	}
 	pkgs, err := packages.Load(cfg, "./...")
 	if err != nil {
